@@ -248,7 +248,7 @@ fn set_soft_cpu_limit(secs: u64) {
 /// regex engine below it (`X <frame>\t<0|1>`), then lets the signal kill the process as usual.
 /// Capturing a backtrace allocates, so the handler must not run inside the allocator: the global
 /// allocator of this binary flags "inside malloc/free"; in that case the report is made on the way
-/// out of the allocator. `alarm(3)` is the back-stop should anything in here block.
+/// out of the allocator. `alarm(30)` is the back-stop should anything in here block.
 mod xcpu {
     use std::alloc::{GlobalAlloc, Layout, System};
     use std::sync::atomic::{AtomicBool, AtomicI32, Ordering};
@@ -347,7 +347,7 @@ mod xcpu {
 
     extern "C" fn on_xcpu(_sig: libc::c_int) {
         unsafe {
-            libc::alarm(3);
+            libc::alarm(30);
         }
         if IN_ALLOC.load(Ordering::Relaxed) {
             PENDING.store(true, Ordering::SeqCst);
@@ -386,7 +386,7 @@ fn worker_run(first_pass_s: u64) -> i32 {
         libc::dup2(quiet::real_stdout_fd(), 2);
     }
     xcpu::arm(quiet::real_stdout_fd());
-    if first_pass_s > 0 {
+    if first_pass_s > 0 && first_pass_s < WATCHDOG_S {
         // batch workers yield to the single-pair children that run under the full watchdog
         unsafe {
             libc::nice(5);
@@ -581,7 +581,10 @@ impl DeathRec {
         self.signal == Some(libc::SIGXCPU)
             || self.signal == Some(libc::SIGALRM)
             || self.exit == Some(98)
-            || (self.signal == Some(libc::SIGKILL) && !self.wall_killed)
+    }
+    /// killed from outside (wall-clock back-stop, OOM killer, operator): never a verdict
+    fn external_kill(&self) -> bool {
+        self.wall_killed || self.signal == Some(libc::SIGKILL)
     }
     fn describe(&self) -> String {
         format!(
@@ -784,7 +787,9 @@ fn run_batch(
 
 /// One (input, entry point) pair alone in a child with the full watchdog.
 fn run_isolated(bin: &Bin, input: &Arc<String>, e: usize, bs: &mut BatchStats) -> Option<PairOut> {
-    let r = run_batch(bin, &[(1u16 << e, input.clone())], 0, WATCHDOG_S, bs);
+    // the worker itself arms the kernel limit at (CPU used so far) + 120 s right before the call, so
+    // that process start-up is not charged and the SIGXCPU handler has room to report the call site
+    let r = run_batch(bin, &[(1u16 << e, input.clone())], WATCHDOG_S, 3600, bs);
     r.into_iter().next().and_then(|v| v.into_iter().next())
 }
 
@@ -1155,7 +1160,7 @@ fn run_case(c: &Case, verbose: bool) -> (Vec<Violation>, Vec<String>) {
                     let r = run_isolated(b, &input, *e, &mut bs);
                     let mut cause = None;
                     if let Some(PairOut { pr: Pr::Died(d), .. }) = &r {
-                        if !d.wall_killed {
+                        if !d.external_kill() {
                             cause = Some(explain(b, &input, *e, d, &mut bs));
                         }
                     }
@@ -1206,8 +1211,8 @@ fn run_case(c: &Case, verbose: bool) -> (Vec<Violation>, Vec<String>) {
             }
             Some(PairOut { pr: Pr::Died(d), .. }) => {
                 line = format!("{} [{}]: CHILD DIED {}", ENTRIES[e], b.name, d.describe());
-                if d.wall_killed {
-                    notes.push(format!("wall-clock back-stop fired (inconclusive): {}", line));
+                if d.external_kill() {
+                    notes.push(format!("killed from outside, e.g. wall-clock back-stop (inconclusive): {}", line));
                 } else {
                     let v = death_violation(&cc, e, &d, cause.as_deref().unwrap_or("unexplained"));
                     if !vs.iter().any(|x| x.sig == v.sig) {
@@ -1850,7 +1855,7 @@ fn schedule_isolated(sh: &Arc<Shared>, st: &mut Stats, input: Arc<String>, e: us
             let mut died = false;
             if let Some(PairOut { pr: Pr::Died(d), .. }) = &r {
                 died = true;
-                if !d.wall_killed {
+                if !d.external_kill() {
                     cause = Some(explain(b, &input, e, d, &mut bs));
                 }
             }
@@ -2260,8 +2265,12 @@ fn explore_impl(cli: &Cli, st: &mut Stats) {
                     record_panic(&sh, r.entry, &p, &r.input, profile, r.gen);
                 }
                 Some(PairOut { pr: Pr::Died(d), .. }) => {
-                    if d.wall_killed {
-                        st.inconclusive(format!("wall-clock back-stop fired during an isolated re-run of {}", en));
+                    if d.external_kill() {
+                        st.inconclusive(format!(
+                            "an isolated re-run of {} was killed from outside (wall-clock back-stop or SIGKILL): {}",
+                            en,
+                            d.describe()
+                        ));
                         continue;
                     }
                     if d.cpu_limit_hit() {
